@@ -76,6 +76,7 @@ static void gather(unsigned n, const double *gfull, double *g)
 static double hook_seconds(void) { return vclock; }
 static unsigned long hook_time_seed(void) { return 12345UL; }
 
+static void precond(unsigned n_, const double *x_, const double *v, double *vpre, void *data);
 static void dump_constraints(FILE * f, unsigned m, const nlopt_constraint * c)
 {
     unsigned i;
@@ -90,7 +91,9 @@ static void dump_constraints(FILE * f, unsigned m, const nlopt_constraint * c)
 static void dump_opt(FILE * f, const nlopt_opt o)
 {
     unsigned i;
-    fprintf(f, "alg=%d n=%u max=%d hasf=%d haspre=%d", (int) o->algorithm, o->n, o->maximize, o->f != NULL, o->pre != NULL);
+    /* haspre: 0 none, 1 the harness's preconditioner, 2 some other function (a wrapper left behind) */
+    fprintf(f, "alg=%d n=%u max=%d hasf=%d haspre=%d", (int) o->algorithm, o->n, o->maximize, o->f != NULL,
+            o->pre == NULL ? 0 : (o->pre == precond ? 1 : 2));
     fprintf(f, " lb="); phexlist(f, o->lb, (int) o->n);
     fprintf(f, " ub="); phexlist(f, o->ub, (int) o->n);
     fprintf(f, " stopval="); phex(f, o->stopval);
